@@ -116,7 +116,8 @@ LcCfgs(kind) == IF LcIsPdu(kind) THEN {CfgOf(c, l, 1, 2, 0, DirOf(kind, [acked |
 LcResp(i) == CASE i = 0 -> [action |-> 0, status |-> 1, n1 |-> <<97>>, n2 |-> <<>>, msg |-> <<>>]
                [] i = 2 -> [action |-> 2, status |-> 0, n1 |-> <<97, 46, 116>>, n2 |-> <<195, 164>>, msg |-> <<111, 107>>]
                [] i = 5 -> [action |-> 5, status |-> 15, n1 |-> <<>>, n2 |-> <<>>, msg |-> <<33>>]
-LcFaults == {<<>>, << <<1>> >>, << <<1, 2, 3, 4>> >>}
+\* (<<1>> and <<0, 0, 0, 1>> are the same entity NUMBER in two widths: the library's entity-ID TLVs compare by number)
+LcFaults == {<<>>, << <<1>> >>, << <<1, 2, 3, 4>> >>, << <<0, 0, 0, 1>> >>}
 LcData == {<<>>, <<1>>, <<6, 1, 5, 0, 0>>}
 
 LcInitVals(kind) ==
